@@ -8,7 +8,7 @@ cd "$W"
 PYTHONPATH="$W" timeout 600 /venv/bin/python "$SD/demo.py" >/dev/null 2>&1; D0=$?
 git apply "$SD/patch.diff" 2>/dev/null; AP=$?
 if [ $AP -ne 0 ]; then git apply --3way "$SD/patch.diff" >/dev/null 2>&1; AP=$?; fi
-PYTHONPATH="$W" timeout 900 /venv/bin/python -m pytest -q -p no:cacheprovider --timeout=900 -x --deselect tests/proxy/integration/test_http.py::TestMITMProxy::test_mitmproxy_works 2>&1 | tail -1 > "$W/.t"; 
+PYTHONPATH="$W" timeout 900 /venv/bin/python -m pytest -q -p no:cacheprovider --timeout=900 --deselect tests/proxy/integration/test_http.py::TestMITMProxy::test_mitmproxy_works 2>&1 | tail -3 | tr "\n" " " > "$W/.t"; 
 T=$(cat "$W/.t")
 PYTHONPATH="$W" timeout 600 /venv/bin/python "$SD/demo.py" >/dev/null 2>&1; D1=$?
 printf '{"rev":"%s","demo_unchanged_exit":%s,"patch_applies":%s,"tests_with_patch":"%s","demo_with_patch_exit":%s}\n' "$(git -C /repo rev-parse --short $REV)" "$D0" "$AP" "$T" "$D1" > "$OUT"
